@@ -385,7 +385,8 @@ def fmVerdict (toks : List String) (real : Op) : Option String :=
     let m2 := match op.ifm2, op.ifm2Scalar, i2 with
       | some f2, none, some (a, s) => NpuOpSpec.footprintMsgs "ifm2" f2 a s
       | _, _, _ => []
-    some (NpuOpSpec.verdict (NpuOpSpec.footprintMsgs "ifm" op.ifm iaA iaS ++ m2 ++ NpuOpSpec.footprintMsgs "ofm" op.ofm oaA oaS))
+    some (NpuOpSpec.verdict (NpuOpSpec.footprintMsgs "ifm" op.ifm iaA iaS ++ m2 ++ NpuOpSpec.footprintMsgs "ofm" op.ofm oaA oaS ++
+          NpuOpSpec.ofmInjectiveMsgs op.ofm))
   | _, _ => some "-"
 
 def handle : List String → Option String
